@@ -61,7 +61,7 @@ BUDGETS = [1, 2, 3, 5, 12]
 PROBLEMS = ["ineq", "quad", "eq", "nan", "nan_ineq", "raise", "linear", "mixed", "milp", "biobj"]
 DEVIATION_PROBLEMS = ["ineq", "quad", "linear", "milp", "biobj", "mixed"]  # quick: first two accepted of these
 SUB_MAX_ITER = 4  # budget of one augmented-Lagrangian sub-optimization
-CASE_TIMEOUT = 30
+CASE_TIMEOUT = 300  # wall seconds, backstop only: runaway runs are stopped by the evaluation cap of the probe
 
 # value alphabets (rotated by VERIF_SEED; the enumerated structure never changes)
 TABLES = [
@@ -698,6 +698,12 @@ def judge(obs, run, pname, info, history="single"):
                         break
         elif n_new:
             v("doe-no-database", f"{n_new} entries recorded with use_database=False")
+        if serial and use_db and tol == 0.0:
+            # "records them": every point at which an original function was really called is a database key
+            rec = {np.asarray(k_, dtype=float).tobytes() for k_ in old + new}
+            lost_pts = [p_ for p_ in obs["func_points"] if p_ not in rec]
+            if lost_pts:
+                v("doe-evaluated-not-recorded", f"original functions were called at {[np.frombuffer(p_, dtype=float).tolist() for p_ in lost_pts][:4]} but these samples have no database entry")
         if serial and not (info["linear"] and normalized and not (info["has_int"] and st["round_ints"])):
             # D2: exactly one call of every original function per distinct evaluated sample
             rows = [r for r in samples]
@@ -766,14 +772,15 @@ def _slim(obs):
     return d
 
 
-HANG_TIMEOUT = 20  # seconds of wall clock after which an isolated case is declared not to return
-ISOLATED_LIBRARIES = ("Nlopt",)  # C code that a Python-level alarm cannot interrupt
+HANG_TIMEOUT = 15  # seconds of CPU after which an isolated case is killed (a normal case takes 0.01-0.3 s)
+ISOLATED_LIBRARIES = ("Nlopt",)  # C code that a Python-level alarm cannot interrupt; parallel DOEs are isolated too
 
 
 def check_case(case, tally):
     """Run one case; the cases of ISOLATED_LIBRARIES run in a forked child that can be killed."""
     runs = case["runs"]
-    if not any(library_of(r["kind"], r["algo"]) in ISOLATED_LIBRARIES for r in runs):
+    parallel = any(r["settings"].get("n_processes", 1) > 1 for r in runs)
+    if not parallel and not any(library_of(r["kind"], r["algo"]) in ISOLATED_LIBRARIES for r in runs):
         return _check_case(case, tally)
     import os
     import pickle
@@ -790,6 +797,7 @@ def check_case(case, tally):
         try:
             os.close(rfd)
             signal.alarm(0)
+            os.setpgrp()  # the manager / worker processes of a parallel DOE die with this group
             t = Tally()
             _check_case(case, t)
             with os.fdopen(wfd, "wb") as f:
@@ -800,37 +808,55 @@ def check_case(case, tally):
             os._exit(code)
     os.close(wfd)
     data = b""
-    deadline = time.time() + HANG_TIMEOUT
+    t_start = time.time()
     hung = False
+    tick = os.sysconf("SC_CLK_TCK")
     while True:
-        left = deadline - time.time()
-        if left <= 0:
+        ready, _, _ = select.select([rfd], [], [], 1.0)
+        if ready:
+            chunk = os.read(rfd, 1 << 16)
+            if not chunk:
+                break
+            data += chunk
+            continue
+        # the cap is on the CPU time of the child (the machine may be oversubscribed), with a generous wall limit
+        try:
+            with open(f"/proc/{pid}/stat") as f:
+                fields = f.read().rsplit(")", 1)[1].split()
+            cpu = (int(fields[11]) + int(fields[12])) / tick
+        except (OSError, IndexError, ValueError):
+            cpu = 0.0
+        if cpu > HANG_TIMEOUT or time.time() - t_start > 20 * HANG_TIMEOUT:
             hung = True
             break
-        ready, _, _ = select.select([rfd], [], [], left)
-        if not ready:
-            hung = True
-            break
-        chunk = os.read(rfd, 1 << 16)
-        if not chunk:
-            break
-        data += chunk
     os.close(rfd)
     if hung:
         os.kill(pid, signal.SIGKILL)
     os.waitpid(pid, 0)
+    try:
+        os.killpg(pid, signal.SIGKILL)  # whatever the case left behind (multiprocessing manager servers)
+    except OSError:
+        pass
     last = runs[-1]
-    if hung or not data:
+    if hung:
+        # A cap of the harness, not a violation: the statement has no time clause.  (NLOPT_NEWUOA stalls for about a
+        # minute inside nlopt after GEMSEO's MaxIterReachedException for a few budgets, then returns the right result;
+        # reproduced with nlopt alone by raising from the objective callback.)
+        tally.case(json.dumps(case, sort_keys=True), nontrivial=True, outcome="capped/killed-after-%ds-cpu" % HANG_TIMEOUT)
+        tally.count(f"capped:{last['algo']}")
+        tally.sets.setdefault("capped", set()).add(json.dumps(case, sort_keys=True))
+        return
+    if not data:
         sig = {
-            "invariant": "driver-does-not-return" if hung else "driver-process-died",
+            "invariant": "driver-process-died",
             "family": family(last["kind"], last["algo"]),
             "algorithm": last["algo"],
             "problem_class": PROBLEM_CLASS[case["problem"]],
             "history": "single" if len(runs) == 1 else "second-run",
             **_non_default(last),
         }
-        tally.case(json.dumps(case, sort_keys=True), nontrivial=True, outcome="hang" if hung else "died")
-        tally.violation(sig, case, f"{sig['invariant']}: no result within {HANG_TIMEOUT} s of wall clock (the same case takes milliseconds for the neighbouring budgets)\n  case={json.dumps(case, sort_keys=True)}")
+        tally.case(json.dumps(case, sort_keys=True), nontrivial=True, outcome="died")
+        tally.violation(sig, case, f"driver-process-died: the forked process running the case ended without reporting\n  case={json.dumps(case, sort_keys=True)}")
         return
     tally.merge(pickle.loads(data))
 
@@ -1003,13 +1029,25 @@ def run(ctx):
         lerr.setdefault(f"{algo}: {what}", []).append(pname)
     tally.notes["errors_of_the_wrapped_library_unrelated_to_a_stop"] = {k_: sorted(set(v_)) for k_, v_ in lerr.items()}
     tally.notes["pruned_noop_combinations"] = pruned
+    capped = sorted(tally.sets.get("capped", set()))
+    caps = {}
+    if capped:
+        caps = {
+            f"cases_killed_after_{HANG_TIMEOUT}s_of_cpu": len(capped),
+            "algorithms": sorted({json.loads(c)["runs"][-1]["algo"] for c in capped}),
+            "first": json.loads(capped[0]),
+            "meaning": "the driver had not returned yet (no time clause in the statement: not a violation); the budget and result "
+            "invariants of these cases are not evaluated",
+        }
+    meta_caps = {"caps": caps} if caps else {}
     return {
+        **meta_caps,
         "level": LEVEL,
         "rule": "one case = one execution history (1 or 2 driver executions) on a fresh harness problem; phase 1: every algorithm "
         "x problem x budget at default settings; phase 2: every assignment of the setting axes with <= k deviations on the "
         "accepted pairs; phase 3: ordered pairs of executions x counter reset. Non-trivial = the library accepted the case and "
         "at least one original function was really called (or an entry recorded) during the last execution.",
-        "exhaustive": True,
+        "exhaustive": not caps,
         "bounds": {
             "budgets": BUDGETS,
             "problems": PROBLEMS,
